@@ -134,7 +134,17 @@ def rule_window(ctx):
         ss_l = ss_u = ss[0]
     elif len(ss) == 2:
         ss_l, ss_u = ss
-        sl_e, su_e = [hflow.resolve(c_.args[1], at=c_, depth=4, stop=(yo, x2)) for c_ in ss]
+
+        def elem(e_):
+            """np.array([a, b])[k] -> the k-th element (the two bounds kept in one array)"""
+            if isinstance(e_, ast.Subscript) and isinstance(e_.slice, ast.Constant) and isinstance(e_.slice.value, int):
+                b_ = e_.value
+                if isinstance(b_, ast.Call) and (dotted(b_.func) or "").split(".")[-1] in ("array", "asarray") and b_.args:
+                    b_ = b_.args[0]
+                if isinstance(b_, (ast.List, ast.Tuple)) and -len(b_.elts) <= e_.slice.value < len(b_.elts):
+                    return b_.elts[e_.slice.value]
+            return e_
+        sl_e, su_e = [elem(hflow.resolve(c_.args[1], at=c_, depth=4, stop=(yo, x2))) for c_ in ss]
         sides = (side_of(ss_l), side_of(ss_u))
     else:
         raise AnalysisError("__find_hits: expected searchsorted(sorted, [s_l, s_u]) or one searchsorted call per bound")
